@@ -11,7 +11,10 @@ EXTENDS AtsMC
 CONSTANT Tier
 
 Rate(n) == Dec(n, "plain")      \* n in units of 0.000001
-Rates == IF Tier = "quick" THEN {Rate(333000), Rate(1250), Rate(12500)} ELSE {Rate(333000), Rate(1250), Rate(12500), Rate(5000), Rate(333333)}
+\* 0.003937 x 127 = 0.499999 (also x 381, x 635): any intermediate rounding of the product to five or fewer
+\* decimals turns it into 0.5 and the fee into 1 instead of 0
+Rates == IF Tier = "quick" THEN {Rate(333000), Rate(1250), Rate(12500), Rate(3937)}
+         ELSE {Rate(333000), Rate(1250), Rate(12500), Rate(5000), Rate(333333), Rate(3937)}
 Cfgs == {InstMsg("ats", "base", <<>>, <<"q1">>, <<"appr1">>, <<"exec1">>, FeeInfo("askfee1", r), FeeInfo("bidfee1", r),
                  <<>>, <<>>, 2, 100) : r \in Rates}
 
